@@ -86,6 +86,14 @@ func (f *fn) place(e ast.Expr) (name string, t ty, ok bool) {
 				return n, f.typeOf(e), true
 			}
 		}
+		if v, isVar := f.pi.info.Uses[id].(*types.Var); isVar && f.slice && v.Pkg() != nil && v.Parent() != v.Pkg().Scope() && f.tyOf(v.Type()).k == kList {
+			return f.free(e, v), f.typeOf(e), true // a statement slice writes to a local slice it does not define
+		}
+		if v, isVar := f.pi.info.Uses[id].(*types.Var); isVar && v.Pkg() != nil && v.Parent() == v.Pkg().Scope() {
+			if t := f.typeOf(e); t.k == kList { // a package-level array / slice: a parameter, returned when written
+				return f.global(e, v), t, true
+			}
+		}
 		return "", ty{}, false
 	}
 	if i, p, ord, isPath := f.path(e); isPath && p != "" {
@@ -128,7 +136,7 @@ func (f *fn) rebind(name string, t ty, val string, rest func() string) string {
 // setIndex: xs[i] = v, xs[i] op= v
 func (f *fn) setIndex(s *ast.AssignStmt, ix *ast.IndexExpr, rest func() string) string {
 	name, t, ok := f.place(ix.X)
-	if !ok || t.k != kList || (t.elem.k != kInt && t.elem.k != kBool) {
+	if !ok || t.k != kList || (t.elem.k != kInt && t.elem.k != kBool && !(t.elem.k == kOpaque && s.Tok == token.ASSIGN)) {
 		f.fail(s, "assignment to %s is outside the fragment", f.render(ix))
 	}
 	i := paren(f.expr(ix.Index))
@@ -306,10 +314,8 @@ func (f *fn) assigned(n ast.Node) map[string]bool {
 		if se, ok := e.(*ast.SliceExpr); ok {
 			e = unparen(se.X)
 		}
-		if id, ok := e.(*ast.Ident); ok {
-			if n := f.names[f.pi.info.Uses[id]]; n != "" {
-				res[n] = true
-			}
+		if id, ok := e.(*ast.Ident); ok && f.names[f.pi.info.Uses[id]] != "" {
+			res[f.names[f.pi.info.Uses[id]]] = true
 		} else if name, _, ok := f.place(e); ok {
 			res[name] = true
 		}
@@ -546,8 +552,11 @@ func (f *fn) rangeLoop(s *ast.RangeStmt, after func() string) string {
 	}
 	t := f.typeOf(s.X)
 	mod := f.assigned(s.Body)
-	if t.k != kList || f.mentions(s.X, mod) {
-		f.fail(s, "range over something that is not an unmodified slice")
+	if t.k == kList && !t.str && f.mentions(s.X, mod) {
+		return f.rangeWritten(s, t, mod, after)
+	}
+	if t.k != kList || t.str {
+		f.fail(s, "range over something that is not a slice (ranging over a string decodes runes)")
 	}
 	xs := f.expr(s.X) // evaluated once, before the loop
 	pre := f.takePre()
@@ -582,6 +591,136 @@ func (f *fn) rangeLoop(s *ast.RangeStmt, after func() string) string {
 		return f.inLoop(exit, next, func() string { return f.block(s.Body.List, next) })
 	})
 	r := pre + call(xs)
+	f.scope = f.scope[:base]
+	return r
+}
+
+// switchStmt: `switch [tag] { case a, b: ...; default: ... }` without fallthrough, as a chain of tests in source
+// order (the default last); `break` leaves the switch.
+func (f *fn) switchStmt(s *ast.SwitchStmt, after func() string) string {
+	if s.Init != nil {
+		inner := *s
+		inner.Init = nil
+		return f.block([]ast.Stmt{s.Init, &inner}, after)
+	}
+	pre, tag := "", ""
+	var tagT ty
+	if s.Tag != nil {
+		tagT = f.typeOf(s.Tag)
+		if tagT.k != kInt && tagT.k != kBool {
+			f.fail(s, "switch on a value outside the fragment")
+		}
+		v := f.expr(s.Tag)
+		tag = f.fresh("tag")
+		pre = f.takePre() + "let " + tag + " : " + f.lean(tagT) + " := " + v + "\n"
+	}
+	var clauses []*ast.CaseClause
+	var def *ast.CaseClause
+	for _, c := range s.Body.List {
+		cc := c.(*ast.CaseClause)
+		for _, st := range cc.Body {
+			if b, ok := st.(*ast.BranchStmt); ok && b.Tok == token.FALLTHROUGH {
+				f.fail(s, "fallthrough is outside the fragment")
+			}
+		}
+		if cc.List == nil {
+			def = cc
+		} else {
+			clauses = append(clauses, cc)
+		}
+	}
+	ob := f.brk
+	f.brk = after
+	defer func() { f.brk = ob }()
+	var chain func(i int) string
+	chain = func(i int) string {
+		if i == len(clauses) {
+			if def == nil {
+				return after()
+			}
+			return f.block(def.Body, after)
+		}
+		cc := clauses[i]
+		body := memo(func() string { return f.block(cc.Body, after) })
+		next := memo(func() string { return chain(i + 1) })
+		if s.Tag == nil { // switch { case cond: }
+			var test func(j int) string
+			test = func(j int) string {
+				if j == len(cc.List) {
+					return next()
+				}
+				return f.branch(cc.List[j], body, memo(func() string { return test(j + 1) }))
+			}
+			return test(0)
+		}
+		var cs []string
+		for _, e := range cc.List {
+			cs = append(cs, tag+" = "+paren(f.expr(e)))
+		}
+		if len(f.pre) > 0 {
+			f.fail(cc, "a case expression can panic")
+		}
+		a, b := body(), next()
+		if a == b {
+			return a
+		}
+		return "if " + strings.Join(cs, " ∨ ") + " then\n" + indent(a) + "\nelse\n" + indent(b)
+	}
+	return pre + chain(0)
+}
+
+// rangeWritten: `for i, x := range xs` whose body writes elements of xs (never xs itself): Go fixes the length at
+// the start and reads xs[i] at each iteration from the written slice - a counting loop over the evolving list.
+func (f *fn) rangeWritten(s *ast.RangeStmt, t ty, mod map[string]bool, after func() string) string {
+	name, _, ok := f.place(s.X)
+	if !ok || s.Tok != token.DEFINE {
+		f.fail(s, "range over a slice expression that the loop body writes to")
+	}
+	whole := false
+	ast.Inspect(s.Body, func(n ast.Node) bool {
+		if a, isAssign := n.(*ast.AssignStmt); isAssign {
+			for _, l := range a.Lhs {
+				if pn, _, isPlace := f.place(l); isPlace && pn == name {
+					whole = true
+				}
+			}
+		}
+		return true
+	})
+	if whole {
+		f.fail(s, "the loop body assigns the slice it ranges over")
+	}
+	base := len(f.scope)
+	n, i := f.fresh("n"), ""
+	f.scope = append(f.scope, lvar{nil, n, "Int"})
+	pre := "let " + n + " : Int := Go.len " + name + "\n"
+	if id, isID := s.Key.(*ast.Ident); isID && id.Name != "_" {
+		i = f.declare(f.pi.info.Defs[id], ty{k: kInt, bits: 64, signed: true})
+	} else {
+		i = f.fresh("i")
+		f.scope = append(f.scope, lvar{nil, i, "Int"})
+	}
+	mod[i] = true
+	pre += "let " + i + " : Int := 0\n"
+	mark := len(f.scope)
+	call := f.loopDef(mod, "Nat", "0", "fuel + 1", "fuel", func() string {
+		saved := f.scope
+		f.scope = f.scope[:base]
+		defer func() { f.scope = saved }()
+		return after()
+	}, func(exit string) string { return exit }, func(rec string, exit func() string) string {
+		next := func() string { return "let " + i + " : Int := " + i + " + 1\n" + rec }
+		bind := ""
+		if id, isID := s.Value.(*ast.Ident); isID && id.Name != "_" {
+			v := f.bind("Go.idx " + name + " " + i)
+			x := f.declare(f.pi.info.Defs[id], *t.elem)
+			bind = f.takePre() + "let " + x + " : " + f.lean(*t.elem) + " := " + v + "\n"
+		}
+		defer func() { f.scope = f.scope[:mark] }()
+		body := f.inLoop(exit, next, func() string { return f.block(s.Body.List, next) })
+		return "if " + i + " < " + n + " then\n" + indent(bind+body) + "\nelse\n" + indent(exit())
+	})
+	r := pre + call("Int.toNat "+n)
 	f.scope = f.scope[:base]
 	return r
 }
